@@ -88,6 +88,8 @@ func genBoxCase(t *rapid.T) BoxCase {
 		Pass: rapid.OneOf(
 			rapid.SampledFrom([]string{"", "00", "70617373", "ff", "6c6f6e6765722070617373706872617365206f66206d616e79206279746573", "e697a5e69cac"}),
 			rapid.Map(rapid.SliceOfN(rapid.Byte(), 0, 40), func(b []byte) string { return hex.EncodeToString(b) }),
+			// long passphrases (key files): around and beyond 64 and 128 bytes
+			rapid.Map(rapid.SliceOfN(rapid.Byte(), 56, 200), func(b []byte) string { return hex.EncodeToString(b) }),
 		).Draw(t, "pass"),
 		Fill: rapid.IntRange(0, 1000).Draw(t, "fill"),
 	}
@@ -184,7 +186,22 @@ func runBox(c BoxCase, o *Obs) error {
 		}
 		copy(bad[:24], other[:24])
 	case "wrongpass":
-		dec = kv.V1NodeEncryptor(append(append([]byte{}, pass...), 'x'))
+		// another passphrase: one more byte at the end, the last byte changed, or the first
+		wrong := append(append([]byte{}, pass...), 'x')
+		if len(pass) > 0 {
+			switch c.Pos % 3 {
+			case 1:
+				wrong = append([]byte{}, pass...)
+				wrong[len(wrong)-1] ^= 1
+			case 2:
+				wrong = append([]byte{}, pass...)
+				wrong[0] ^= 0x80
+			}
+		}
+		dec = kv.V1NodeEncryptor(wrong)
+		if len(pass) >= 64 {
+			o.Class("wrong-passphrase-differing-beyond-byte-64")
+		}
 	}
 	o.Class("corrupt-" + c.Corrupt)
 	got, err := dec.Decrypt("node/x", bad)
@@ -234,7 +251,7 @@ func derivedKey(pass []byte) ([32]byte, error) {
 func init() { register("TestC18_Box", runBox) }
 
 func TestC18_Box(t *testing.T) {
-	st := newStats(t, "C18", "TestC18_Box", "plaintexts of every length 0..200 (dense), block edges 15/16/17 31/32/33 63/64/65 127..129, 4096, 65536 and random lengths to 70000, random passphrases of 0-40 bytes, through the public V1NodeEncryptor: decrypt(encrypt(m))=m; encrypt(m) twice and under a second instance with the same passphrase is byte-identical; the ciphertext does not contain the plaintext; one corruption per case (single bit flip anywhere, byte substitution, truncation to any shorter length, extension, nonce swap with another ciphertext, wrong passphrase) must give an error; in half of the cases the ciphertext is first produced by a harness-owned sealer for the earlier box format (validated against the encryptor on messages <=32 bytes where both formats coincide) and must decrypt to the plaintext, and is then corrupted the same way; non-trivial = length > 32 (formats diverge) or a corruption in the nonce/MAC region")
+	st := newStats(t, "C18", "TestC18_Box", "plaintexts of every length 0..200 (dense), block edges 15/16/17 31/32/33 63/64/65 127..129, 4096, 65536 and random lengths to 70000, random passphrases of 0-40 and 56-200 bytes (the wrong passphrase differs in an appended byte, the last byte or the first), through the public V1NodeEncryptor: decrypt(encrypt(m))=m; encrypt(m) twice and under a second instance with the same passphrase is byte-identical; the ciphertext does not contain the plaintext; one corruption per case (single bit flip anywhere, byte substitution, truncation to any shorter length, extension, nonce swap with another ciphertext, wrong passphrase) must give an error; in half of the cases the ciphertext is first produced by a harness-owned sealer for the earlier box format (validated against the encryptor on messages <=32 bytes where both formats coincide) and must decrypt to the plaintext, and is then corrupted the same way; non-trivial = length > 32 (formats diverge) or a corruption in the nonce/MAC region")
 	checkRapid(t, st, genBoxCase, runBox)
 }
 
@@ -258,7 +275,7 @@ type KVEncCase struct {
 }
 
 func genKVEncCase(t *rapid.T) KVEncCase {
-	c := KVEncCase{Pass: hex.EncodeToString(rapid.SliceOfN(rapid.Byte(), 1, 20).Draw(t, "pass")),
+	c := KVEncCase{Pass: hex.EncodeToString(rapid.OneOf(rapid.SliceOfN(rapid.Byte(), 1, 20), rapid.SliceOfN(rapid.Byte(), 60, 140)).Draw(t, "pass")),
 		BF: rapid.SampledFrom([]int{2, 3, 4, 16, 4096}).Draw(t, "bf"), Flip: rapid.IntRange(0, 1<<20).Draw(t, "flip"), Wrong: rapid.Bool().Draw(t, "wrong")}
 	if rapid.IntRange(0, 2).Draw(t, "withfault") == 0 {
 		c.FailPut = rapid.IntRange(1, 6).Draw(t, "failput")
